@@ -2,7 +2,9 @@
 //! cases and records observations. Contains no oracle; TLC judges the traces.
 
 mod common;
+mod dir_eng;
 mod entity;
+mod file_eng;
 mod gzdec;
 mod lex;
 mod neg_eng;
@@ -19,6 +21,8 @@ fn main() {
         "serve" => serve_eng::run(&a[2], &a[3]),
         "stream" => stream_eng::run(&a[2], &a[3]),
         "neg" => neg_eng::run(&a[2], &a[3]),
+        "file" => file_eng::run(&a[2], &a[3]),
+        "dir" => dir_eng::run(&a[2], &a[3]),
         e => {
             eprintln!("unknown engine {e}");
             std::process::exit(2);
